@@ -269,9 +269,13 @@ def match_finding(stage, job):
         if all(re.match(r"FATAL: Inappropriate value \{", l) for l in job.get("fatal_lines", [])) and not job.get("error_directives") \
            and re.search(r"&[a-z][\w-]*\s+(OBJECT\s+IDENTIFIER|RELATIVE-OID)", t):
             return "C18-oid-identifier"
-        if re.search(r"Cannot compile", fat) and re.search(r"\bINSTANCE\s+OF\b", t):
+        # the two component findings: EVERY diagnostic names a component (identifiers of components start with a lower-case letter,
+        # top-level types and specializations with an upper-case one), and the module has such a component
+        comp_only = all(re.match(r'FATAL: Cannot compile "[a-z]', l) for l in job.get("fatal_lines", [])) and \
+            all(re.search(r'#\s*error Cannot compile "[a-z]', l) for l in job.get("error_directives", []))
+        if comp_only and re.search(r"[a-z][\w-]*\s+(?:\[[^\]]*\]\s*)?INSTANCE\s+OF\b", t):
             return "C10-instance-of-member-error-directive"
-        if re.search(r"Cannot compile", fat) and re.search(r"[a-z][\w-]*\s+(?:\[[^\]]*\]\s*)?(EXTERNAL|EMBEDDED\s+PDV)\b", t):
+        if comp_only and re.search(r"[a-z][\w-]*\s+(?:\[[^\]]*\]\s*)?(EXTERNAL|EMBEDDED\s+PDV)\b", t):
             return "C10-unsupported-useful-types-no-skeleton"
     if stage == "files-model":
         # model and C disagree on the per-type file names ONLY at parameterized types defined in two modules
